@@ -163,7 +163,7 @@ impl<'a> Gen<'a> {
     fn index(&mut self, len: usize) -> V {
         let rng = &mut *self.rng;
         if rng.chance(1, 12) {
-            return rng.pick(&[V::I(len as i64), V::I(-1), V::I(len as i64 + 3)]).clone();
+            return rng.pick(&[V::I(len as i64), V::I(-1), V::I(len as i64 + 3), fbits(-0.5), fbits(-1.5)]).clone();
         }
         if len == 0 {
             return V::I(0);
@@ -298,7 +298,22 @@ impl<'a> Gen<'a> {
                     Stmt::Do(op("extend", vec![t, E::Tup((0..n).map(|_| stored(self)).collect())]))
                 }
             }
-            14 => Stmt::Do(op("clear", vec![t])),
+            14 => match self.rng.below(3) {
+                0 => Stmt::Do(op("clear", vec![t])),
+                // a predicate / an iterator adaptor that raises for anything but numbers
+                1 => Stmt::Do(op("retainfn", vec![t])),
+                _ => {
+                    let src = if !other_lists.is_empty() && self.rng.chance(1, 2) {
+                        (*self.rng.pick(&other_lists)).e.clone()
+                    } else if self.rng.chance(1, 4) {
+                        t.clone()
+                    } else {
+                        let n = self.rng.below(4);
+                        E::Tup((0..n).map(|_| imm(if self.rng.chance(3, 4) { V::I(self.rng.range(0, 5)) } else { scalar(self.rng) })).collect())
+                    };
+                    Stmt::Do(op("extendinc", vec![t, src]))
+                }
+            },
             15..=16 => {
                 let n = if self.rng.chance(1, 12) { -1 } else { self.rng.range(0, len as i64 + 2) };
                 if self.rng.chance(1, 2) {
@@ -310,7 +325,9 @@ impl<'a> Gen<'a> {
             17 => Stmt::Do(op("fill", vec![t, stored(self)])),
             18..=19 => Stmt::Do(op("reverse", vec![t])),
             20..=21 => {
-                if sortable(xs) {
+                // also lists whose elements are not mutually comparable: the sort then fails part-way
+                // and the list must still hold a permutation (the model says which)
+                if sortable(xs) || (len >= 2 && self.rng.chance(1, 2)) {
                     Stmt::Do(op("sort", vec![t]))
                 } else {
                     return None;
@@ -417,7 +434,17 @@ impl<'a> Gen<'a> {
                 }
                 Stmt::Do(op("extend", vec![t, q.e.clone()]))
             }
-            15 => Stmt::Do(op("clear", vec![t])),
+            15 => match self.rng.below(4) {
+                0 => Stmt::Do(op("clear", vec![t])),
+                // sort by value: fails part-way when the values are not mutually comparable
+                1 | 2 => Stmt::Do(op("sortval", vec![t])),
+                _ => {
+                    // an updater that raises for anything but a number (the default stays inserted)
+                    let k = self.map_key(es);
+                    let d = if self.rng.chance(1, 2) { imm(V::I(self.rng.range(0, 5))) } else { imm(scalar(self.rng)) };
+                    Stmt::Do(op("updateinc", vec![t, imm(k), d]))
+                }
+            },
             16..=18 => {
                 // map.sort(): keys must be mutually comparable for ValueKey::partial_cmp to be a
                 // total preorder (numbers, or strings; null sorts first)
